@@ -214,6 +214,12 @@ type fidRef struct {
 	// to return a cyclical reference, and hasParent should be used to
 	// check for root over looking at parent directly.
 	parent *fidRef
+
+	// xattrOf is set only for the fidRef created by Txattrwalk: it is the
+	// fidRef the walk started from, whose File this fidRef borrows. A
+	// reference is held on xattrOf for as long as this fidRef lives, and
+	// the borrowed File is closed by xattrOf, never by this fidRef.
+	xattrOf *fidRef
 }
 
 // IncRef increases the references on a fid.
@@ -226,8 +232,15 @@ func (f *fidRef) DecRef() error {
 	if atomic.AddInt64(&f.refs, -1) == 0 {
 		var (
 			errs []error
-			err  = f.file.Close()
+			err  error
 		)
+		if f.xattrOf != nil {
+			// The File belongs to the fidRef the xattr walk started
+			// from; just drop the reference held on it.
+			err = f.xattrOf.DecRef()
+		} else {
+			err = f.file.Close()
+		}
 		if err != nil {
 			err = fmt.Errorf("file: %w", err)
 			errs = append(errs, err)
